@@ -146,6 +146,14 @@ func (f *Subseq) getArgs(s *slip.Scope, args slip.List, depth int) (start, end i
 		}
 	}
 	switch ta := args[0].(type) {
+	case nil:
+		// The empty list, seq remains nil.
+		if end < 0 {
+			end = 0
+		}
+		if 0 < start || 0 < end {
+			slip.ErrorPanic(s, depth, "indices %d and %d are out of bounds for list of length 0", start, end)
+		}
 	case slip.List:
 		if end < 0 {
 			end = len(ta)
